@@ -48,7 +48,9 @@ TEXT = ("Bounded model checking with CBMC's memory-safety instrumentation (an ou
         "(2) rasterize_edges_1/4/8 stay inside the pixel storage for ANY 32-bit edge positions; (3) the allocation-size helpers never request "
         "an overflowed size, for every 32-bit count; (4) transformed, filtered, repeated fetches through pixman_image_composite32 from "
         "exactly-sized sources stay inside the storage (transform/filter/repeat menus, pixels symbolic); (5) the bit-walking a1 fast paths "
-        "(over_n_1_8888, over_n_1_0565, add_1_1) on an exactly-sized a1 image with the request ending on the word boundary. Bounds checks are also on in the "
+        "(over_n_1_8888, over_n_1_0565, add_1_1) on an exactly-sized a1 image with the request ending on the word boundary; (6) the scanline split of the nearest/bilinear scalers "
+        "(pad_repeat_get_scanline_bounds, bilinear_pad_repeat_get_scanline_bounds): for every source width, start coordinate, scanline width and pixel index "
+        "the zones read without a bounds test sample inside the source row (unit_x from a menu). Bounds checks are also on in the "
         "C01/C03/C10/C12/C19 harnesses.")
 NOTE = ("The COVER_CLIP licence (analyze_extent vs. fetcher arithmetic) with symbolic transforms is not decided (32x32 multipliers, see C11); "
         "API-level geometry and transforms are concrete menus; SIMD paths are not encoded; images are at most 3x2.")
